@@ -232,15 +232,21 @@ func runDisasm(c *harness.Ctx) harness.Result {
 }
 
 var webPaths = []string{"/top", "/", "/peek", "/flamegraph", "/source", "/disasm", "/download"}
+var webTypos = []string{"f=F1(", "i=F3)", "h=[12", "si=nosuchtype", "s=*", "sf=(", "prunefrom=a(", "tf=x(", "ti=)"}
 var webParams = []string{"f=main", "f=a", "f=a|b", "i=c", "h=d|e", "s=a|b|main", "sf=b", "g=lines", "g=files", "g=addresses", "si=cpu", "si=samples", "n=2", "sort=cum", "noinlines=t", "tf=v1", "ti=x", "ts=k1", "th=k2", "tagroot=k1", "tagleaf=k2", "calltree=t", "mean=t", "rel=t", "nodefraction=0.3", "trim=false", "prunefrom=c", "unit=ms", "showcolumns=t"}
 
 func genRequests(r *rand.Rand, n int) []string {
 	var out []string
+	// a fifth of the histories come from a user who keeps mistyping expressions
+	typos := r.Intn(5) == 0
 	for i := 0; i < n; i++ {
 		u := webPaths[r.Intn(len(webPaths))]
 		var ps []string
 		for j, k := 0, r.Intn(4); j < k; j++ {
 			ps = append(ps, webParams[r.Intn(len(webParams))])
+		}
+		if typos && r.Intn(2) == 0 || r.Intn(25) == 0 {
+			ps = append(ps, webTypos[r.Intn(len(webTypos))])
 		}
 		if (u == "/source" || u == "/disasm" || u == "/peek") && r.Intn(4) > 0 {
 			ps = append(ps, "f="+[]string{"main", "a", "b", "."}[r.Intn(4)])
@@ -256,6 +262,20 @@ func genRequests(r *rand.Rand, n int) []string {
 func runWeb(c *harness.Ctx) harness.Result {
 	r := c.Rng
 	p := GenProfile(r)
+	if r.Intn(3) == 0 {
+		// a numeric tag whose unit differs from sample to sample: every page that builds a report
+		// carries pprof's warning about it in its error banner
+		for i, sm := range p.Sample {
+			if sm.NumLabel == nil {
+				sm.NumLabel = map[string][]int64{}
+			}
+			if sm.NumUnit == nil {
+				sm.NumUnit = map[string][]string{}
+			}
+			sm.NumLabel["kq"] = []int64{int64(1 + i)}
+			sm.NumUnit["kq"] = []string{[]string{"bytes", "kilobytes"}[i%2]}
+		}
+	}
 	var buf bytes.Buffer
 	p.WriteUncompressed(&buf)
 	reqs := genRequests(r, 6+r.Intn(10))
@@ -268,9 +288,35 @@ func runWeb(c *harness.Ctx) harness.Result {
 		flags["focus"] = "main|a"
 	}
 	res := harness.Result{NonTrivial: true, Sig: fmt.Sprintf("web %d conc%d %d", len(reqs), conc, c.Index), Sample: map[string]any{"requests": reqs, "concurrency": conc, "flags": flags}}
-	full, err := sess.Run(sess.Spec{Profile: buf.Bytes(), Mode: "web", Requests: reqs, Strs: flags, Dir: c.Tmp + "/full", Concurrency: conc}, 2*time.Minute)
+	full, err := sess.Run(sess.Spec{Profile: buf.Bytes(), Mode: "web", Requests: reqs, Strs: flags, Dir: c.Tmp + "/full", Concurrency: conc}, 10*time.Minute)
 	if err != nil {
 		return harness.Result{Verdict: harness.Inconclusive, Detail: "web session: " + err.Error()}
+	}
+	// a request that gets no answer at all: established only if the same request of the same history
+	// stays unanswered in three fresh servers (a loaded machine delays, it does not block three times)
+	stuck := func(r *sess.Result) int {
+		for i, sg := range r.Segments {
+			if sg.Code == sess.NoAnswer {
+				return i
+			}
+		}
+		return -1
+	}
+	if at := stuck(full); at >= 0 && full.Err == "" {
+		c.Stat("unanswered_requests_seen", 1)
+		for try := 2; try <= 3; try++ {
+			again, err := sess.Run(sess.Spec{Profile: buf.Bytes(), Mode: "web", Requests: reqs, Strs: flags, Dir: fmt.Sprintf("%s/full%d", c.Tmp, try), Concurrency: conc}, 10*time.Minute)
+			if err != nil || again.Err != "" || stuck(again) < 0 {
+				return harness.Result{Verdict: harness.Inconclusive, Detail: fmt.Sprintf("request %d GET %s got no answer once, but not in every repetition of the history", at, reqs[at])}
+			}
+		}
+		fresh, err := sess.Run(sess.Spec{Profile: buf.Bytes(), Mode: "web", Requests: []string{reqs[at]}, Strs: flags, Dir: c.Tmp + "/freshstuck"}, 10*time.Minute)
+		if err != nil || fresh.Err != "" || len(fresh.Segments) != 1 || fresh.Segments[0].Code == sess.NoAnswer {
+			return harness.Result{Verdict: harness.Inconclusive, Detail: fmt.Sprintf("request %d GET %s got no answer in the history, and the fresh server did not settle it: %v", at, reqs[at], err)}
+		}
+		res.Verdict = harness.Violated
+		res.Detail = fmt.Sprintf("request %d GET %s (concurrency %d) never gets an answer after the requests before it - in three fresh servers given the same history - while as the first request to a fresh server it is answered with status %d\nrequests: %q", at, reqs[at], conc, fresh.Segments[0].Code, reqs)
+		return res
 	}
 	if full.Err != "" {
 		return harness.Result{Verdict: harness.Inconclusive, Detail: "web session: " + full.Err}
